@@ -31,10 +31,10 @@ def inconclusive (impl : String) : Option String :=
 def extraConc (okv : List (String × String)) : Option String :=
   match lookup okv "fatal", lookup okv "races" with
   | some f, _ => some s!"fail:fatal:{f}"
-  | none, some r => some s!"fail:race:{(r.splitOn ",").headD ""}"
+  | none, some r => some (raceVerdict r)
   | none, none => none
 
-def handle : Handler := fun input impl =>
+def handle0 : Handler := fun input impl =>
   let kv := parseKV input
   let okv := parseKV impl
   match inconclusive impl with
@@ -136,5 +136,12 @@ def handle : Handler := fun input impl =>
       else judgeConc tbl (hammerLocks (getS kv "obj")) o
     (s!"run=- calls={calls} fatal=- detector={o.detector} races=-", v)
   | m => ("-", s!"fail:driver:unknown mode {m}")
+
+/-- a case whose only failure is a race of the class `race-own-trace` (the defect of round 4, repaired in /repo by
+b541158; no open finding: it is a violation like any other): nothing is predicted for it (the race reports are part of
+the observation), the Spec verdict carries the failure -/
+def handle : Handler := fun input impl =>
+  let r := handle0 input impl
+  if r.2.startsWith "fail:race-own-trace" then ("-", r.2) else r
 
 end Pandora.Drv.C11
